@@ -149,7 +149,7 @@ func (b *backend) List(ctx context.Context, r *proto.RangeRequest) (resp *proto.
 		return nil, errors.New("invalid range end")
 	}
 
-	key, rangeEnd := b.coder.EncodeObjectKey(r.Key, 0), b.coder.EncodeObjectKey(r.End, 0)
+	key, rangeEnd := b.encodeRangeBound(r.Key), b.encodeRangeBound(r.End)
 
 	// add limit to check if there is more value
 	limit := r.Limit
@@ -174,6 +174,18 @@ func (b *backend) List(ctx context.Context, r *proto.RangeRequest) (resp *proto.
 	return resp, nil
 }
 
+// encodeRangeBound turns a raw range bound into the internal key that separates the same records.
+// A bound of the form key+"\x00" is how clients write "immediately after key" (the start of the next page of a
+// paginated list, the end of a range that covers exactly one key). '\x00' sorts before the separator that follows a
+// key in its own records, so the plain encoding would put such a bound in front of key's records instead of behind
+// them: the next page would return key again. The bound is placed right after the last possible record of key.
+func (b *backend) encodeRangeBound(bound []byte) []byte {
+	if n := len(bound); n > 1 && bound[n-1] == 0 {
+		return append(b.coder.EncodeObjectKey(bound[:n-1], math.MaxUint64), 0)
+	}
+	return b.coder.EncodeObjectKey(bound, 0)
+}
+
 // Count implements Backend interface
 func (b *backend) Count(ctx context.Context, r *proto.CountRequest) (resp *proto.CountResponse, err error) {
 	ts := time.Now()
@@ -193,7 +205,7 @@ func (b *backend) Count(ctx context.Context, r *proto.CountRequest) (resp *proto
 		}, nil
 	}
 
-	key, rangeEnd := b.coder.EncodeObjectKey(r.Key, 0), b.coder.EncodeObjectKey(r.End, 0)
+	key, rangeEnd := b.encodeRangeBound(r.Key), b.encodeRangeBound(r.End)
 	count, err := b.scanner.Count(ctx, key, rangeEnd, rev)
 	if err != nil {
 		klog.Errorf("backend count %v return err %v", r, err)
